@@ -2,7 +2,7 @@ SPECIFICATION Spec
 INVARIANT Inv
 CHECK_DEADLOCK FALSE
 CONSTANTS
-  MaxLen = 5
+  MaxLen = 4
   Prefix <- PNone
   Suffix <- PNone
   Alphabet = {"type", "n1", "{", "}", ":", "(", ")", "=", "@", "extend", "schema", "query", "[", "]", "!", "implements", "&", "str"}
